@@ -30,7 +30,11 @@ type c15Pin struct {
 }
 
 func c15New(T time.Duration) *DialogBasedBackend {
-	return &DialogBasedBackend{timeout: T, backends: make(map[string]*ExpireBackend), nextCleanTime: time.Now().Add(T)}
+	// the product's constructor (seconds granularity), then a millisecond timeout
+	d := NewDialogBasedBackend(1)
+	d.timeout = T
+	d.nextCleanTime = time.Now().Add(T)
+	return d
 }
 
 func TestC15(t *testing.T) {
